@@ -156,6 +156,7 @@ type ReturnCase struct {
 	Ret   *ssa.Return
 	Block *ssa.BasicBlock // block whose execution selects this value (the phi predecessor, or the return block)
 	Val   ssa.Value
+	To    *ssa.BasicBlock // the block of the phi the value flows into (nil when the result is not a phi): Block→To is the selecting edge
 }
 
 func ReturnCases(fn *ssa.Function, result int) []ReturnCase {
@@ -165,17 +166,17 @@ func ReturnCases(fn *ssa.Function, result int) []ReturnCase {
 			continue
 		}
 		ret := e.Instr.(*ssa.Return)
-		var expand func(v ssa.Value, blk *ssa.BasicBlock, depth int)
-		expand = func(v ssa.Value, blk *ssa.BasicBlock, depth int) {
+		var expand func(v ssa.Value, blk, to *ssa.BasicBlock, depth int)
+		expand = func(v ssa.Value, blk, to *ssa.BasicBlock, depth int) {
 			if phi, ok := v.(*ssa.Phi); ok && depth < 8 {
 				for i, ev := range phi.Edges {
-					expand(ev, phi.Block().Preds[i], depth+1)
+					expand(ev, phi.Block().Preds[i], phi.Block(), depth+1)
 				}
 				return
 			}
-			out = append(out, ReturnCase{ret, blk, v})
+			out = append(out, ReturnCase{ret, blk, v, to})
 		}
-		expand(e.Results[result], ret.Block(), 0)
+		expand(e.Results[result], ret.Block(), nil, 0)
 	}
 	return out
 }
